@@ -104,9 +104,14 @@ class Dual:
 
         def canon(tree):
             out = {}
+            # object roots: directories holding an object declaration (ids may look like 'p/v1/content', so a
+            # 'v1' segment above the object root is part of the root, not a version directory)
+            roots = sorted({p.rsplit("/", 1)[0] if "/" in p else "" for p in tree if p.rsplit("/", 1)[-1].startswith("0=ocfl_object_")}, key=len, reverse=True)
             for p, b in tree.items():
                 parts = p.split("/")
-                vi = next((i for i, x in enumerate(parts) if re.fullmatch(r"v\d+", x)), None)
+                root = next((r for r in roots if r == "" or p.startswith(r + "/")), None)
+                skip = 0 if not root else len(root.split("/"))
+                vi = next((i for i, x in enumerate(parts) if i >= skip and re.fullmatch(r"v\d+", x)), None) if root is not None else None
                 base = parts[-1]
                 if vi is not None and len(parts) >= vi + 3:
                     k = "/".join(parts[:vi + 2]) + "/#" + hashlib.sha256(b).hexdigest()[:16]
